@@ -15,6 +15,97 @@ impl Slice {
     //@| ensures true,
 }
 
+// ================================================================ redirect-chain analysis (C19 clause "stops within the hop limit,
+// reports a loop exactly when a (URL, method) repeats"; C07: no panic)
+pub uninterp spec fn lower(s: Seq<char>) -> Seq<char>;
+pub assume_specification [str::to_lowercase] (s: &str) -> (r: std::string::String) ensures r@ == lower(s@);
+pub assume_specification<'b> [<std::string::String as PartialEq<&str>>::eq] (a: &std::string::String, b: &&str) -> (r: bool) ensures r == (a@ == b@);
+// SHIMS (hand-written, trusted as over-approximations: every result is unconstrained, the only assumption is that the
+// callee returns): Router/Request/Action/Url are opaque here; their own behaviour is the subject of units rtr/act.
+#[verifier::external_body] pub struct RouterConfig { x: u8 }
+#[verifier::external_body] pub struct Rule { x: u8 }
+#[verifier::external_body] #[verifier::accept_recursive_types(T)] pub struct Route<T> { h: std::marker::PhantomData<T> }
+#[verifier::external_body] pub struct Request { x: u8 }
+#[verifier::external_body] pub struct HttpError { x: u8 }
+#[verifier::external_body] pub struct UnitTrace { x: u8 }
+#[verifier::external_body] pub struct Action { x: u8 }
+#[verifier::external_body] pub struct Url { x: u8 }
+#[verifier::external_body] pub struct UrlParseError { x: u8 }
+pub struct Router<T> { pub config: RouterConfig, pub vf_rest: Option<T> }
+impl<T> Router<T> {
+    #[verifier::external_body] pub fn match_request(&self, request: &Request) -> Vec<std::sync::Arc<Route<T>>> { unimplemented!() }
+}
+impl Request {
+    #[verifier::external_body] pub fn from_example(router_config: &RouterConfig, example: &Example) -> std::result::Result<Request, HttpError> { unimplemented!() }
+}
+impl Action {
+    #[verifier::external_body] pub fn from_routes_rule(routes: Vec<std::sync::Arc<Route<Rule>>>, request: &Request, unit_trace: Option<&mut UnitTrace>) -> Action { unimplemented!() }
+    #[verifier::external_body] pub fn get_status_code(&mut self, response_status_code: u16, unit_trace: Option<&mut UnitTrace>) -> u16 { unimplemented!() }
+    #[verifier::external_body] pub fn filter_headers(&mut self, headers: Vec<Header>, response_status_code: u16, add_rule_ids_header: bool, unit_trace: Option<&mut UnitTrace>) -> Vec<Header> { unimplemented!() }
+}
+impl Url {
+    #[verifier::external_body] pub fn parse(input: &str) -> std::result::Result<Url, UrlParseError> { unimplemented!() }
+    // url::Url::host_str is None for URLs without a host (mailto:, data:, unix: ...): result unconstrained
+    #[verifier::external_body] pub fn host_str(&self) -> Option<&str> { unimplemented!() }
+}
+#[verifier::external_body] pub fn join_url(base: &str, path: &str) -> String { unimplemented!() }
+#[verifier::external_body] pub fn outl_codes_contains(a: &[u16], x: &u16) -> bool { /* verbatim: <[u16]>::contains */ a.contains(x) }
+#[verifier::external_body] pub fn outl_domains_contains(a: &Vec<String>, x: &String) -> bool { /* verbatim: Vec<String>::contains */ a.contains(x) }
+//@@ item src/http/header.rs :: struct Header
+//@@ item src/api/examples.rs :: struct ExampleHeader
+//@@ item src/api/examples.rs :: struct Example
+impl Clone for ExampleHeader { #[verifier::external_body] fn clone(&self) -> (r: Self) ensures r == *self { unimplemented!() } }
+impl Clone for Example { #[verifier::external_body] fn clone(&self) -> (r: Self) ensures r == *self { unimplemented!() } }
+//@@ item src/api/redirection_loop.rs :: const REDIRECTION_CODES
+//@@ item src/api/redirection_loop.rs :: struct RedirectionLoop
+//@@ item src/api/redirection_loop.rs :: struct RedirectionHop
+//@@ item src/api/redirection_loop.rs :: enum RedirectionError
+pub open spec fn hop_key(h: RedirectionHop) -> (Seq<char>, Seq<char>) { (h.url@, h.method@) }
+pub open spec fn hops_distinct(s: Seq<RedirectionHop>) -> bool {
+    forall|i: int, j: int| 0 <= i < j < s.len() ==> hop_key(#[trigger] s[i]) != hop_key(#[trigger] s[j])
+}
+// the statement's clause: a loop is reported exactly when a (URL, method) repeats, and the analysis stops at the repeat
+pub open spec fn loop_reported_iff_repeat(r: RedirectionLoop) -> bool {
+    &&& (r.error matches Some(RedirectionError::Loop)) <==> !hops_distinct(r.hops@)
+    &&& hops_distinct(r.hops@.drop_last())
+}
+impl Example {
+    //@@ fn src/api/examples.rs :: impl Example / fn with_url -> r
+    //@| ensures r.url == url, r.method == self.method, r.response_status_code == self.response_status_code,
+    //@@ fn src/api/examples.rs :: impl Example / fn with_method -> r
+    //@| ensures r.url == self.url, r.method == method, r.response_status_code == self.response_status_code,
+}
+impl RedirectionLoop {
+    //@@ fn src/api/redirection_loop.rs :: impl RedirectionLoop / fn has_error -> r
+    //@| ensures r == self.error.is_some(),
+    //@@ fn src/api/redirection_loop.rs :: impl RedirectionLoop / fn has_error_too_many_hops -> r
+    //@| ensures r == (self.error matches Some(RedirectionError::TooManyHops)),
+    //@@ fn src/api/redirection_loop.rs :: impl RedirectionLoop / fn has_error_loop -> r
+    //@| ensures r == (self.error matches Some(RedirectionError::Loop)),
+    //@@ fn src/api/redirection_loop.rs :: impl RedirectionLoop / fn from_example -> r
+    //@| ensures r.hops@.len() >= 1, r.hops@.len() <= max_hops as nat + 1, r.hops@[0].url == example.url, loop_reported_iff_repeat(r),
+    //@@ fn src/api/redirection_loop.rs :: impl RedirectionLoop / fn compute -> r
+    //@| ensures r.hops@.len() >= 1, r.hops@.len() <= max_hops as nat + 1, r.hops@[0].url == example.url, loop_reported_iff_repeat(r),
+    //@| replace `REDIRECTION_CODES.contains(` => `outl_codes_contains(&REDIRECTION_CODES, ` :: slice::contains has no Verus spec; result unconstrained
+    //@| replace `[301, 302].contains(` => `outl_codes_contains(&[301, 302], ` :: slice::contains has no Verus spec; result unconstrained
+    //@| replace `project_domains.contains(` => `outl_domains_contains(&project_domains, ` :: Vec::contains has no Verus spec; result unconstrained
+    //@| opt r5:0
+    //@| loop 0: invariant_except_break hops_distinct(hops@), !(error matches Some(RedirectionError::Loop)), hops@.len() <= vf_it0_idx + 1,
+    //@|   invariant hops@.len() >= 1, 0 <= vf_it0_idx <= vf_it0_rem0.len(), vf_it0.remaining() == vf_it0_rem0.skip(vf_it0_idx), vf_it0_rem0.len() == max_hops as int,
+    //@|     hops@[0].url == example.url,
+    //@|   ensures hops@.len() >= 1, hops@.len() <= max_hops as nat + 1, hops@[0].url == example.url,
+    //@|     (error matches Some(RedirectionError::Loop)) <==> !hops_distinct(hops@), hops_distinct(hops@.drop_last()),
+    //@|   decreases max_hops as int - vf_it0_idx,
+    //@| forlabel 2: it2
+    //@| loop 2: invariant iter_ref_ok(it2.history@, it2.index@, it2.snapshot@.remaining(), hops@),
+    //@|     forall|k: int| 0 <= k < it2.index@ ==> hop_key(#[trigger] hops@[k]) != (current_url@, current_method@),
+    //@|     hops_distinct(hops@), hops@.len() >= 1, hops@.len() <= vf_it0_idx, 1 <= vf_it0_idx <= max_hops as int, hops@[0].url == example.url,
+    //@|     !(error matches Some(RedirectionError::Loop)), vf_it0.remaining() == vf_it0_rem0.skip(vf_it0_idx), vf_it0_rem0.len() == max_hops as int,
+    //@| loophead 2: let ghost hops0 = hops@; let ghost kk = it2.index@ as int; proof { assert(*hop == hops@[kk]); }
+    //@| before `error = Some(RedirectionError::Loop);`: proof { assert(hops@.drop_last() =~= hops0); assert(hop_key(hops@[kk]) == hop_key(hops@[hops@.len() - 1])); assert(!hops_distinct(hops@)); }
+    //@| before `if let Ok(url) = Url::parse(&current_url) {`: proof { assert(hops_distinct(hops@)); assert(hops_distinct(hops@.drop_last())); }
+}
+
 //@@ strlits
 } // verus!
 fn main() {}
